@@ -259,6 +259,7 @@ func c10Scenario(r *Run, idx int, cs c10Case) {
 	go func() { wg.Wait(); <-waitAfterDone; close(allDone) }()
 	terminated := false
 	lockStreak, lockDeadlock := 0, false
+	violationsBefore := r.NViolations()
 	for evals := 0; evals < 100 && !terminated; evals++ {
 		select {
 		case <-allDone:
@@ -349,6 +350,16 @@ func c10Scenario(r *Run, idx int, cs c10Case) {
 		}
 	}
 	_ = lockDeadlock
+	if !terminated && r.NViolations() == violationsBefore {
+		// the clients did not all come back within the ~20 s of this loop and neither predicate could say why
+		// (somebody was still moving): no verdict
+		select {
+		case <-allDone:
+			terminated = true
+		default:
+			r.Inconclusive(1)
+		}
+	}
 	if !closeReturned {
 		select {
 		case <-closeDone:
